@@ -2,7 +2,10 @@
 C11 — IOStream reads return exactly the incoming bytes, in order, per request.
 Property theorems over the stream machine of `Model.lean` (all op sequences, every regex engine `R`).
 -/
-import TornadoModel.C11.Lemmas
+import TornadoModel.C11.Contract3
+import TornadoModel.C11.StdR
+import TornadoModel.C11.Arrival4
+import TornadoModel.C11.Sched3
 namespace TornadoModel.C11
 variable (R : Nat → Bytes → Option Nat)
 
@@ -203,8 +206,11 @@ example : ((run stdR (init 4 100) [.readUntil [10] (some 3), .feed [97, 98, 99, 
            (run stdR (init 4 100) [.readUntil [10] (some 3), .feed [97, 98, 99, 100]]).1.buf) =
     (true, ErrK.unsat, [97, 98, 99, 100]) := by decide
 
-/-- stretch (tie-only): the results of a request sequence depend only on the byte stream, not on how the
-    stream is cut into arrivals.  Needs prefix-stability of the regex engine (`R id b = some e → R id (b ++ c) = some e`). -/
+/-! ### arrival independence -/
+
+/-- the statement first put down for arrival independence (kept verbatim): ANY op list without feeds after the feeds,
+    only prefix-stability of the regex engine assumed.  It is FALSE (`arrival_independent_refuted`): a partial read
+    returns whatever the first transport read delivered. -/
 def arrival_independent_goal : Prop :=
   ∀ (R : Nat → Bytes → Option Nat), (∀ id b c e, R id b = some e → R id (b ++ c) = some e) →
   ∀ (c m : Nat) (segs1 segs2 : List Bytes) (reads : List Op), segs1.flatten = segs2.flatten →
@@ -212,9 +218,205 @@ def arrival_independent_goal : Prop :=
     evBytes (runEvs (run R (init c m) (segs1.map .feed ++ reads)).2) =
     evBytes (runEvs (run R (init c m) (segs2.map .feed ++ reads)).2)
 
-/-- stretch (tie-only): the contract in the `Spec.contractOk` form on the returned bytes themselves -/
-def read_contracts_goal : Prop :=
-  ∀ (R : Nat → Bytes → Option Nat) (s : St) (d : Bytes) (p : Nat), s.rbytes = none → s.rdelim = some d →
-    findReadPos R s = some (some p) → Spec.contractOk R (.until d s.rmax) (.bytes (s.buf.take p)) = true
+/-- witness: the stream `1 2 3 4` delivered as `[1],[2,3,4]` or as `[1,2,3,4]`, then `read_bytes(4, partial=True)`:
+    the first run returns `1`, the second `1 2 3 4`.  Inherent to partial reads (they return what has arrived), not
+    a defect of the code. -/
+theorem arrival_independent_refuted : ¬ arrival_independent_goal := by
+  intro h
+  have := h (fun _ _ => none) (by intro id b c e he; simp at he) 100 100 [[1], [2, 3, 4]] [[1, 2, 3, 4]]
+    [.readBytes 4 true] rfl (by intro op hop; simp at hop; subst hop; rfl)
+  revert this
+  decide
+
+/-- **arrival_batch** (machine = strict batch reader).  Scheduling assumption: the whole byte stream is in the
+    transport (in ANY segmentation `segs`, including 1-byte deliveries and empty segments) before the first request
+    is issued, no handler/close callback is registered, and the requests are issued back to back — each one when the
+    previous call has returned (a request issued while another is pending is rejected, as in the code).  Requests:
+    `read_bytes(n)` (NOT partial), `read_until`, `read_until_regex`, with or without `max_bytes` (`stableRead`).
+    Side conditions: `read_chunk_size > 0`, the stream fits `max_buffer_size`, and `batch ≠ none`: no request runs
+    into `max_bytes` (when UnsatisfiableReadError is noticed depends on the arrivals).  Regex engine: any `R` that is
+    prefix-stable and local.  Then the list of results is exactly `batch R stream reads` — a function of the byte
+    stream and the request sequence alone. -/
+theorem arrival_batch (hS : RStable R) (hL : RLocal R) (c m : Nat) (hc : 0 < c) (segs : List Bytes)
+    (hm : segs.flatten.length ≤ m) (reads : List Op) (hst : ∀ op ∈ reads, stableRead op = true)
+    (results : List Bytes) (hb : batch R segs.flatten reads = some results) :
+    (dataEvs (runEvs (run R (init c m) (segs.map .feed ++ reads)).2)).map (·.2) = results.map .bytes :=
+  feeds_reads_batch R hS hL c m hc (init c m)
+    ⟨rfl, rfl, rfl, rfl, rfl, by simp [init], rfl, rfl, rfl, rfl, init_inv c m⟩ segs hm reads hst results hb
+
+/-- **arrival_independent_partial**: the strongest true version of `arrival_independent_goal` — two segmentations of
+    the same byte stream give the same results, result by result (and hence the same concatenation), for stable
+    (non-partial) requests under the assumptions of `arrival_batch` -/
+theorem arrival_independent_partial :
+    ∀ (R : Nat → Bytes → Option Nat), (∀ id b c e, R id b = some e → R id (b ++ c) = some e) → RLocal R →
+    ∀ (c m : Nat) (segs1 segs2 : List Bytes) (reads : List Op), segs1.flatten = segs2.flatten →
+      0 < c → segs1.flatten.length ≤ m → (∀ op ∈ reads, stableRead op = true) →
+      (batch R segs1.flatten reads).isSome = true →
+      (dataEvs (runEvs (run R (init c m) (segs1.map .feed ++ reads)).2)).map (·.2) =
+        (dataEvs (runEvs (run R (init c m) (segs2.map .feed ++ reads)).2)).map (·.2) ∧
+      evBytes (runEvs (run R (init c m) (segs1.map .feed ++ reads)).2) =
+        evBytes (runEvs (run R (init c m) (segs2.map .feed ++ reads)).2) := by
+  intro R hS hL c m segs1 segs2 reads hseg hc hm hst hb
+  cases hres : batch R segs1.flatten reads with
+  | none => rw [hres] at hb; simp at hb
+  | some results =>
+    have h1 := arrival_batch R hS hL c m hc segs1 hm reads hst results hres
+    have h2 := arrival_batch R hS hL c m hc segs2 (hseg ▸ hm) reads hst results (hseg ▸ hres)
+    refine ⟨h1.trans h2.symm, ?_⟩
+    rw [evBytes_dataEvs, evBytes_dataEvs, h1, h2]
+
+/-- **arrival_schedule** (ANY interleaving of arrivals and requests — requests issued up front, re-issued on
+    completion, or at any other time).  `ops` is an arbitrary list of `feed`s and stable read requests.  A request is
+    *accepted* iff no read is pending when it is issued (`accepted`; the others are rejected with "Already reading" and
+    change nothing) — with "issue the next request when the previous one has completed" every request is accepted.
+    Then the results handed out during the run are, result by result, the first results of the strict batch reader over
+    the WHOLE byte stream (`fedAll ops`, including bytes that arrive after the request was issued or completed) applied
+    to the accepted requests: the k-th accepted request returns `batch[k]`, however the stream is cut into arrivals
+    and whenever the requests are issued.  (Prefix, not equality: a request whose bytes have not all arrived, or are
+    not yet pulled from the transport because no handler is registered, is still pending at the end of `ops`.)
+    Side conditions as for `arrival_batch`: chunk > 0, stream ≤ max_buffer_size, `batch ≠ none` (no request runs
+    into `max_bytes`), no EOF / error / close / close-callback ops in the schedule. -/
+theorem arrival_schedule (hS : RStable R) (hL : RLocal R) (c m : Nat) (hc : 0 < c) (ops : List Op)
+    (hops : ∀ op ∈ ops, schedOp op = true) (hm : (fedAll ops).length ≤ m) (results : List Bytes)
+    (hb : batch R (fedAll ops) (accepted R (init c m) ops) = some results) :
+    (dataEvs (runEvs (run R (init c m) ops).2)).map (·.2) <+: results.map .bytes := by
+  have o : OpenSt c m (init c m) [] :=
+    ⟨rfl, rfl, rfl, rfl, by simp [init], rfl, rfl, rfl, rfl, rfl, init_inv c m⟩
+  have := (sched_prefix R hS hL c m hc ops (init c m) [] o hops (by simpa [fedOf, fedAll] using hm)).1 rfl results
+    (by simpa [fedOf, fedAll] using hb)
+  exact this
+
+-- non-vacuity: a request issued up front, the next ones re-issued after completion, arrivals in between
+example : accepted stdR (init 4 100) [.readUntil [13, 10] none, .feed [97, 13], .feed [10, 98], .readBytes 2 false,
+            .feed [99, 49], .readRegex 1 none, .feed [50, 120, 100]] =
+    [.readUntil [13, 10] none, .readBytes 2 false, .readRegex 1 none] := by decide
+example : (dataEvs (runEvs (run stdR (init 4 100) [.readUntil [13, 10] none, .feed [97, 13], .feed [10, 98],
+            .readBytes 2 false, .feed [99, 49], .readRegex 1 none, .feed [50, 120, 100]]).2)).map (·.2) =
+    [.bytes [97, 13, 10], .bytes [98, 99], .bytes [49, 50, 120]] := by decide
+
+-- non-vacuity: the engine of the tie meets both hypotheses; a delimiter read with max_bytes, a fixed-size read and a
+-- regex read over a stream cut in two ways
+example : RStable stdR ∧ RLocal stdR := ⟨stdR_stable, stdR_local⟩
+example : batch stdR [97, 13, 10, 98, 99, 49, 50, 120, 100] [.readUntil [13, 10] (some 5), .readBytes 2 false,
+            .readRegex 1 none, .readBytes 5 false] = some [[97, 13, 10], [98, 99], [49, 50, 120]] := by decide
+example : (dataEvs (runEvs (run stdR (init 2 100) (([[97], [13], [10, 98, 99, 49], [], [50, 120, 100]] : List Bytes).map .feed ++
+            [.readUntil [13, 10] (some 5), .readBytes 2 false, .readRegex 1 none, .readBytes 5 false])).2)).map (·.2) =
+    [.bytes [97, 13, 10], .bytes [98, 99], .bytes [49, 50, 120]] := by decide
+
+/-! ### the contracts in `Spec.contractOk` form, on the returned bytes themselves -/
+
+/-- **read_contracts_until** (was `read_contracts_goal`): the bytes `buf.take p` a delimiter read returns satisfy
+    `Spec.contractOk`: they end with the FIRST occurrence of the delimiter and are not longer than `max_bytes` -/
+theorem read_contracts_until :
+    ∀ (R : Nat → Bytes → Option Nat) (s : St) (d : Bytes) (p : Nat), s.rbytes = none → s.rdelim = some d →
+      findReadPos R s = some (some p) → Spec.contractOk R (.until d s.rmax) (.bytes (s.buf.take p)) = true := by
+  intro R s d p hb hd h
+  obtain ⟨loc, hl, hp, hmx⟩ := read_contracts_delim R s d p hb hd h
+  have hbd := findSub_bound d s.buf loc hl
+  have hlen : (s.buf.take p).length = p := by rw [List.length_take]; omega
+  have hf := findSub_take d s.buf loc p hl (by omega)
+  have hw : Spec.withinMax s.rmax p = true := by
+    cases hm : s.rmax with
+    | none => rfl
+    | some mm => simpa [Spec.withinMax] using hmx mm hm
+  have : p - d.length = loc := by omega
+  simp only [Spec.contractOk, hlen, hf, hw, this]
+  simp; omega
+
+example : Spec.contractOk stdR (.until [13, 10] (some 4)) (.bytes (([97, 13, 10, 98] : Bytes).take 3)) = true := by decide
+
+/-- **read_contracts_result**: in a state satisfying the invariant whose read parameters encode the request `q`
+    (`Match`), the outcome `_finish_read` produces for the position `_find_read_pos` selects meets `Spec.contractOk q`:
+    exact length (`read_bytes`, `read_into`), 1..n bytes (`partial`), ends right behind the first occurrence of the
+    delimiter / at the end of the engine's first match, never more than `max_bytes`.  The only hypothesis on the regex
+    engine is `RLocal` (a match is determined by the bytes up to its end; `stdR_local`). -/
+theorem read_contracts_result (hR : RLocal R) (s : St) (i : Inv s) (q : Spec.Req) (m : Match s q) (p : Nat)
+    (h : findReadPos R s = some (some p)) : Spec.contractOk R q (finRes s p) = true :=
+  contract_of_find R hR s i q m p h
+
+example : RLocal stdR := stdR_local
+example : Match { buf := [97, 49, 50, 120, 98], rregex := some 1, rmax := some 4, rfut := some 0 } (.regex 1 (some 4)) := by
+  simp [Match]
+
+/-- **read_contracts_step**: one step from a good state whose registered requests are `T` (`Cover`: ids below
+    `nextId`, the pending read is in `T`): every data result of the step belongs to a request in `T` or to the one
+    this op registers, and meets that request's contract -/
+theorem read_contracts_step (hR : RLocal R) (s : St) (i : Inv s) (T : List (Nat × Spec.Req)) (c : Cover T s) (op : Op) :
+    Cover (T ++ issued s op) (step R s op).1 ∧
+    ∀ g o, (g, o) ∈ dataEvs (step R s op).2.evs → ∃ q, (g, q) ∈ T ++ issued s op ∧ Spec.contractOk R q o = true :=
+  step_ok R hR s i T c op
+
+/-- **read_contracts_run**: for ALL op sequences from a fresh stream (any arrival pattern, close point, error
+    injection, request order): every result handed to a read future (`dataEvs`: future id, outcome) belongs to a
+    request registered under that id (`table`) and meets `Spec.contractOk` for it; ids identify requests uniquely -/
+theorem read_contracts_run (hR : RLocal R) (c m : Nat) (ops : List Op) :
+    (∀ g o, (g, o) ∈ dataEvs (runEvs (run R (init c m) ops).2) →
+      ∃ q, (g, q) ∈ table R (init c m) ops ∧ Spec.contractOk R q o = true) ∧
+    (∀ g q q', (g, q) ∈ table R (init c m) ops → (g, q') ∈ table R (init c m) ops → q = q') := by
+  have c0 : Cover [] (init c m) :=
+    ⟨by intro x hx; simp at hx, by intro f hf; simp [init] at hf, by intro g q q' h; simp at h⟩
+  have := run_ok R hR ops (init c m) [] (init_inv c m) c0
+  simpa [runEvs] using this
+
+/-- **issued_of_ret**: the table entry of a read call is keyed by the very future the call returned -/
+theorem issued_of_ret (s : St) (op : Op) (f : Nat) (q : Spec.Req) (hq : reqOfOp op = some q)
+    (h : (step R s op).2.ret = .fut f) : issued s op = [(f, q)] := by
+  have h' : (doStep R { s with out := [] } op).2 = .fut f := h
+  have key : ∀ (s1 : St) (f0 : Nat), startRead { s with out := [] } = .inr (s1, f0) →
+      s.rfut = none ∧ f0 = s.nextId := by
+    intro s1 f0 hs
+    obtain ⟨a, _, b⟩ := startRead_inr _ s1 f0 hs
+    exact ⟨a, b⟩
+  have fin : s.rfut = none → f = s.nextId → issued s op = [(f, q)] := by
+    intro h1 h2; simp [issued, h1, hq, h2]
+  cases op with
+  | readBytes n part =>
+    simp only [doStep] at h'
+    split at h'
+    · simp at h'
+    · rename_i s1 f0 hs
+      obtain ⟨a, b⟩ := key s1 f0 hs
+      exact fin a ((finishInline_ret R _ _ _ _ h').trans b)
+  | readUntil d mx =>
+    simp only [doStep] at h'
+    split at h'
+    · simp at h'
+    · rename_i s1 f0 hs
+      obtain ⟨a, b⟩ := key s1 f0 hs
+      exact fin a ((finishInline_ret R _ _ _ _ h').trans b)
+  | readRegex rid mx =>
+    simp only [doStep] at h'
+    split at h'
+    · simp at h'
+    · rename_i s1 f0 hs
+      obtain ⟨a, b⟩ := key s1 f0 hs
+      exact fin a ((finishInline_ret R _ _ _ _ h').trans b)
+  | readUntilClose =>
+    simp only [doStep] at h'
+    split at h'
+    · simp at h'
+    · rename_i s1 f0 hs
+      obtain ⟨a, b⟩ := key s1 f0 hs
+      split at h'
+      · simp at h'; exact fin a (h'.symm.trans b)
+      · exact fin a ((finishInline_ret R _ _ _ _ h').trans b)
+  | readInto n part =>
+    simp only [doStep, readInto] at h'
+    split at h'
+    · simp at h'
+    · rename_i s1 f0 hs
+      obtain ⟨a, b⟩ := key s1 f0 hs
+      split at h'
+      · simp at h'; exact fin a (h'.symm.trans b)
+      · exact fin a ((finishInline_ret R _ _ _ _ h').trans b)
+  | _ => simp [reqOfOp] at hq
+
+-- non-vacuity: the run of the example above — three requests registered, three results, each under its own id
+example : table stdR (init 4 100) [.readUntil [13, 10] none, .feed [97, 13], .feed [10, 98, 99, 100],
+            .readBytes 2 true, .readInto 3 false, .feed [101, 102]] =
+    [(0, .until [13, 10] none), (1, .bytes 2 true), (2, .into 3 false)] := by decide
+example : dataEvs (runEvs (run stdR (init 4 100) [.readUntil [13, 10] none, .feed [97, 13], .feed [10, 98, 99, 100],
+            .readBytes 2 true, .readInto 3 false, .feed [101, 102]]).2) =
+    [(0, .bytes [97, 13, 10]), (1, .bytes [98, 99]), (2, .into 3 [100, 101, 102])] := by decide
 
 end TornadoModel.C11
